@@ -28,7 +28,7 @@ RULE = ('Grid: every opcode slot (1792) x 10 placements of (PC, data pointers, S
 ASSUMPTIONS = [
     'bus-cycle breakdown per instruction from the published Spectrum contention table (ref/z80ref cycles; DESIGN.md Appendix A)',
     'where the table leaves the register-pair value of a repeated block instruction\'s five trailing internal cycles open (before/after update), either is accepted',
-    'ports are chosen with bit 1 set so that no 128K paging write happens inside this check (paging is C06/C08)',
+    'grid ports are chosen with bit 1 set so that no 128K paging write happens there (paging is C06/C08); a separate enumerated shard covers OUT (n),A to the paging port executed from 0xC000+',
 ]
 
 _envs = {}
@@ -194,6 +194,45 @@ def check_case(case, rec=None):
     return None
 
 
+# --- OUT (n),A that pages another bank in while executing from 0xC000+ ------------------------------------------
+def paging_out_cases():
+    """OUT (n),A to the 128K paging port, executed from 0xC000 with an even/odd bank there, paging an odd/even bank in:
+    the opcode and operand fetches happen with the *old* bank at 0xC000, so its parity decides their contention."""
+    m = ula.M128
+    out = []
+    for old in (0, 1, 6, 7):
+        for new in (0, 1, 4, 3, 0x10, 0x11):
+            if new & 7 == old:
+                continue
+            for n_ in (0xFD, 0xFC, 0x01):
+                for t in (m.t0 - 3, m.t0, m.t0 + 1, m.t0 + 3, m.t0 + 5, m.t0 + 130, m.t0 + m.line * 100 + 2, m.t1 - 2, 100):
+                    out.append({'paging_out': 1, 'old': old, 'new': new, 'n': n_, 't': t})
+    return out
+
+
+def paging_out_oracle(case):
+    from checks import c06
+    m = ula.M128
+    old, new, n_, t = case['old'], case['new'], case['n'], case['t']
+    pc = 0xC000
+    cycles = [(pc, 4), (pc + 1, 3), ('io', (new << 8) | n_)]
+    expect = m.apply(t, cycles, old)
+    c6 = {'model': '128', 'base': pc, 'code': [0xD3, n_, 0x00, 0x00], 'fill_seed': 1, 'fill_style': 0,
+          'regs': {'A': new, 'F': 0, 'BC': 0, 'DE': 0, 'HL': 0, 'IX': 0, 'IY': 0, 'SP': 0x8000, 'I': 0x80, 'R': 0, '^A': 0, '^F': 0, '^BC': 0, '^DE': 0, '^HL': 0},
+          'im': 1, 'iff': 0, 'tstates': t, 'interrupts': False, 'o7ffd': old, 'tracer': True, 'in_r_c': True, 'ini': True, 'salt': 0, 'steps': 1,
+          'start_off': 0}
+    for impl in ('pycmio', 'ccmio'):
+        sim, tracer, cfg = c06.build(c6, impl)
+        regs = sim.registers
+        t0 = int(regs[25])
+        sim.run(pc)
+        dt = int(regs[25]) - t0
+        if dt != expect:
+            raise Violation('delay:OUT (n),A:paging', '%s: OUT ($%02X),A with A=$%02X at $C000, bank %d paged in, T=%d: took %d T-states, ULA model %d (the fetches see bank %d)' % (
+                impl, n_, new, old, t, dt, expect, old), case)
+    return expect > 11
+
+
 # --- shards -------------------------------------------------------------------
 def plan(tier, seed):
     slots = c05.all_slots()
@@ -206,6 +245,7 @@ def plan(tier, seed):
     n = 40000 if tier == 'quick' else 1500000
     for i in range(16):
         shards.append({'kind': 'hyp', 'n': n // 16, 'seed': shard_seed(seed, PROPERTY, i)})
+    shards.append({'kind': 'paging_out'})
     if tier == 'thorough':
         # full frame sweep for representative opcodes
         reps = [('main', 0x00), ('main', 0x7E), ('main', 0x34), ('main', 0xE5), ('main', 0xE3), ('main', 0xCD), ('main', 0xD3), ('main', 0xDB),
@@ -220,6 +260,17 @@ def plan(tier, seed):
 
 def run_shard(shard, rec):
     kind = shard['kind']
+    if kind == 'paging_out':
+        n = nt = 0
+        for case in paging_out_cases():
+            try:
+                nt += bool(paging_out_oracle(case))
+            except Violation as v:
+                rec.violation(v)
+            n += 1
+        rec.bulk(n, nt, 'paging-out')
+        rec.sample('paging-out', {'instruction': 'OUT (n),A from 0xC000 paging another bank in', 'cases': n})
+        return
     if kind == 'grid':
         machine = shard['machine']
         ts = tlist(machine)
@@ -294,6 +345,9 @@ def _hyp_oracle(case, rec):
 
 
 def replay(case):
+    if case.get('paging_out'):
+        paging_out_oracle(case)
+        return
     check_case(case)
 
 
